@@ -82,15 +82,33 @@ func (t *tree) doRemove(
 		if key.BitLength() < bitLength {
 			// Lookup key is too short for the current n.Label, so it doesn't exist.
 			return ptr, false, nil, nil
-		} else if key.BitLength() == bitLength {
-			n.LeafNode, changed, existing, err = t.doRemove(ctx, n.LeafNode, bitLength, key)
+		}
+		// Dereference both children before anything is modified: everything that can fail (node
+		// database / remote reads, cancellation) has to happen on the way down, so that a
+		// failed removal leaves the tree as it was.
+		if _, err = t.cache.derefNodePtr(ctx, n.Left, t.newFetcherSyncGet(key, true)); err != nil {
+			return nil, false, nil, err
+		}
+		if _, err = t.cache.derefNodePtr(ctx, n.Right, t.newFetcherSyncGet(key, true)); err != nil {
+			return nil, false, nil, err
+		}
+		var child *node.Pointer
+		if key.BitLength() == bitLength {
+			child, changed, existing, err = t.doRemove(ctx, n.LeafNode, bitLength, key)
 		} else if key.GetBit(bitLength) {
-			n.Right, changed, existing, err = t.doRemove(ctx, n.Right, bitLength, key)
+			child, changed, existing, err = t.doRemove(ctx, n.Right, bitLength, key)
 		} else {
-			n.Left, changed, existing, err = t.doRemove(ctx, n.Left, bitLength, key)
+			child, changed, existing, err = t.doRemove(ctx, n.Left, bitLength, key)
 		}
 		if err != nil {
 			return nil, false, existing, err
+		}
+		if key.BitLength() == bitLength {
+			n.LeafNode = child
+		} else if key.GetBit(bitLength) {
+			n.Right = child
+		} else {
+			n.Left = child
 		}
 
 		// Fetch and check the remaining children.
